@@ -29,6 +29,10 @@ import (
 
 const stallLimit = 2 * time.Second
 
+// dropPeer closes the raw pipe end of the peer of the pair made last (the peer "goes away";
+// no library call that could itself block on the pipe)
+var dropPeer func()
+
 var panicMu sync.Mutex
 var panicNotes []string
 
@@ -94,6 +98,7 @@ func (l *oneShotListener) Addr() net.Addr { return &net.TCPAddr{IP: net.IPv4(127
 // pipePair: conn (its writes go through the gate) and peer, plus a way to write raw garbage to conn
 func pipePair(kind string) (conn, peer transport.Conn, gate *gateConn, garbage func() error, cleanup func(), err error) {
 	c1, c2 := net.Pipe()
+	dropPeer = func() { _ = c2.Close() }
 	gate = &gateConn{Conn: c1, entered: make(chan struct{})}
 	cleanup = func() { _ = c1.Close(); _ = c2.Close() }
 	if kind == "tcp" {
@@ -273,7 +278,7 @@ func (x *c03) stalledSend(kind, trigger string, big bool) {
 		// Close waits behind the stalled Send (same mutex; known finding D14); then the peer goes away
 		_, waitClose := bounded(stallLimit, func() error { return conn.Close() })
 		time.Sleep(15 * time.Millisecond)
-		_ = peer.Close()
+		dropPeer()
 		s := waitSend()
 		if s.panicked != nil {
 			bad("c19_nopanic", "the stalled Send panicked: %v", s.panicked)
